@@ -425,13 +425,14 @@ def generated_seeds():
         seeds.append({'id': 'gen/%s' % name, 'kind': 'wf',
                       'text': wfgen.render(prog), 'expect': 'accept',
                       'tasks': len(prog['tasks']), 'prog': name,
-                      'origin': 'generator'})
+                      'runnable': True, 'origin': 'generator'})
     for name in ('guard_var', 'publish_seq', 'publish_result',
                  'publish_guard', 'bad_guard', 'bad_output'):
         seeds.append({'id': 'genj/%s' % name, 'kind': 'wf',
                       'text': wfgen.render(P[name], jinja=True),
                       'expect': 'accept', 'tasks': len(P[name]['tasks']),
-                      'prog': name, 'jinja': True, 'origin': 'generator'})
+                      'prog': name, 'jinja': True, 'runnable': True,
+                      'origin': 'generator'})
     # feature programs: policies, retry, with-items, advanced publish,
     # task-defaults, reverse - rendered by the same generator
     T, direct = wfgen.T, wfgen.direct
@@ -467,6 +468,10 @@ def generated_seeds():
         seeds.append({'id': 'gen/%s' % name, 'kind': 'wf',
                       'text': wfgen.render(prog), 'expect': 'accept',
                       'tasks': len(prog['tasks']), 'prog': None,
+                      'runnable': True,
+                      'run_params': ({'task_name': 'b'}
+                                     if prog.get('type') == 'reverse'
+                                     else None),
                       'origin': 'generator'})
     # a multi-workflow file and a workbook assembled from generated programs
     multi = {'version': '2.0'}
